@@ -50,9 +50,14 @@ func (w *WaterMark) Init(closer *Closer) {
 }
 
 // Begin sets the last index to the given value.
+//
+// The pending count is raised before the index is published through lastIndex:
+// a concurrent tryAdvance only looks at indices up to lastIndex, so it can
+// never step over an index whose count has not been recorded yet.
 func (w *WaterMark) Begin(index uint64) {
+	w.addCount(index, 1)
 	w.setLastIndex(index)
-	w.addIndex(index, 1)
+	w.tryAdvance()
 }
 
 // BeginMany works like Begin but accepts multiple indices.
@@ -60,10 +65,11 @@ func (w *WaterMark) BeginMany(indices []uint64) {
 	if len(indices) == 0 {
 		return
 	}
-	w.setLastIndex(indices[len(indices)-1])
 	for _, idx := range indices {
-		w.addIndex(idx, 1)
+		w.addCount(idx, 1)
 	}
+	w.setLastIndex(indices[len(indices)-1])
+	w.tryAdvance()
 }
 
 // Done sets a single index as done.
@@ -133,12 +139,20 @@ func (w *WaterMark) addIndex(index uint64, delta int32) {
 	if index == 0 {
 		return
 	}
+	w.addCount(index, delta)
+	w.tryAdvance()
+}
+
+// addCount adjusts the pending count of index without advancing the mark.
+func (w *WaterMark) addCount(index uint64, delta int32) {
+	if index == 0 {
+		return
+	}
 	win := w.ensureWindow(index)
 	offset := index - win.base
 	if offset < uint64(len(win.slots)) {
 		win.slots[offset].Add(delta)
 	}
-	w.tryAdvance()
 }
 
 func (w *WaterMark) setLastIndex(index uint64) {
